@@ -244,8 +244,8 @@ fn mixture_case(rec: &mut Rec, _ctx: &Ctx, idx: u64, rng: &mut ChaCha20Rng) {
 }
 
 pub fn run(ctx: &Ctx) -> Rec {
-  let mut rec = par_run(ctx, "faults", ctx.n(48, 1600), |rec, i, rng| fault_case(rec, ctx, i, rng));
-  let r2 = par_run(ctx, "mixtures", ctx.n(1500, 60_000), |rec, i, rng| mixture_case(rec, ctx, i, rng));
+  let mut rec = par_run(ctx, "faults", ctx.n(240, 6000), |rec, i, rng| fault_case(rec, ctx, i, rng));
+  let r2 = par_run(ctx, "mixtures", ctx.n(4000, 120_000), |rec, i, rng| mixture_case(rec, ctx, i, rng));
   rec.merge(r2);
   rec
 }
